@@ -10,7 +10,8 @@ Auto-discovered by the runner (pcv/props/c06_<name>.py).  Three streams:
 * `nth-approx-prime`  (oracle): `nth_papprox n0 k` -> the first k values n >= n0 whose approximation RiemannR_inverse(n) is ITSELF A
                       PRIME (the boundary at which an inclusive / exclusive mix-up of the walk's start shows), at n0 = 10^7..10^11
                       and seeded n0; each entry certified by the driver (q prime by trial division, pi(q) = n, approx prime, the
-                      model walk from approx ends on q).  A complaint is reported as the failing input `nth <n>`.
+                      model walk from approx ends on q).  A complaint is reported as the replayable failing input `nth_from <n> <approx> <pi(approx)> <ilog>`
+                      (harness: nth_prime(n); model: the walk from that approximation).
 * `nth-cli-expr`      (oracle): `primecount <expr> --nth-prime` for expressions in and outside int64 / [1, max_n] (theorem `cli_nth_prime`).
 """
 import math
@@ -145,9 +146,13 @@ def approx_prime_stream(ctx):
             f = dict(x.split("=", 1) for x in b.split(":")[2:] if "=" in x) if b.startswith("bad:") else {}
             if "n" in f and "impl" in f:
                 want = f.get("model", "-")
-                exp = ("%s (model walk from the prime approximation)" % want if want not in ("-", "error")
-                       else "the n-th prime: a prime q with pi(q) = n")
-                dis.append(dict(index=i, op="nth %s" % f["n"], impl=f["impl"], model=exp, complaint=b, found_by=o))
+                if want not in ("-", "error") and all(k in f for k in ("approx", "capprox", "lg")):
+                    # replayable: the harness answers nth_prime(n), the model walks from the reported approximation / count
+                    dis.append(dict(index=i, op="nth_from %s %s %s %s" % (f["n"], f["approx"], f["capprox"], f["lg"]),
+                                    impl=f["impl"], model=want, complaint=b, found_by=o))
+                else:
+                    dis.append(dict(index=i, op="nth %s" % f["n"], impl=f["impl"],
+                                    model="the n-th prime: a prime q with pi(q) = n", complaint=b, found_by=o))
             else:
                 dis.append(dict(index=i, op=o, impl=a, model=b))
         return dis
